@@ -196,6 +196,7 @@ func zeroPad(text []byte, zeros string) ([]byte, int) {
 	for _, t := range dbc.VerifScanAll(text) {
 		switch {
 		case t.Kind == 1:
+			b.WriteString(t.Value) // a NUL character is an end-of-input token with text: keep it
 		case t.Kind == 7:
 			b.WriteString(`"` + t.Value + `"`)
 		case t.Kind == 4 && t.Value != "" && strings.Trim(t.Value, "0123456789") == "":
